@@ -169,7 +169,7 @@ while done < N and attempts < 20 * N:
     import io as _io
     saved_B = _io.DEFAULT_BUFFER_SIZE
     witness = {"api": api, "mode": mode, "key": key, "keys": [k.hex() for k in keys], "buffer_size": B, "offset": off, "container": container,
-               "filler": kind, "truncated": cut, "data_len": len(data), "data_hex_head": data[:64].hex()}
+               "filler": kind, "truncated": cut, "data_len": len(data), "data_hex": data.hex() if len(data) <= 30000 else data[:30000].hex()}
     try:
         _io.DEFAULT_BUFFER_SIZE = B
         with time_limit(20):
